@@ -69,7 +69,8 @@ def run (args : List Str) : String × String × String :=
       | some v, some w =>
         let e := equal v w
         -- specification: equal values mean the same thing; the same text is always equal to itself
-        let sp := if a = enc then "T" else if e then (if meaning v = meaning w then "T" else "?viol:equal-but-different-meaning") else "-"
+        -- (`equal_sound`, contrapositive: values that mean different things are never equal)
+        let sp := if a = enc then "T" else if meaning v ≠ meaning w then "F" else if e then "T" else "-"
         (encBool e, sp, if e then "eq-true" else "eq-false")
       | _, _ => ("err", "-", "eq-err")
     else bad
